@@ -248,7 +248,12 @@ def _convert_call_to_dict(tree):
     c = _sugar(tree)
     if c is None:
         return []
-    return [f for f in _methods(c).values() if not f.name.startswith("visit_") and "ast.Dict" in _calls(f) and len(f.args.args) == 4]
+    ms = [f for f in _methods(c).values() if not f.name.startswith("visit_") and "ast.Dict" in _calls(f) and len(f.args.args) == 4]
+    if ms:
+        return ms
+    # the binder does not use self: it may live beside the class as a module-level function the class calls
+    called = {x for f in _methods(c).values() for x in _calls(f)}
+    return [f for f in _top_funcs(tree) if f.name in called and "ast.Dict" in _calls(f) and len(f.args.args) == 3]
 
 
 def _cr(tree):
@@ -922,6 +927,45 @@ def _own_returns(f: ast.AST):
     return [n for n in _own_walk(f) if isinstance(n, ast.Return)]
 
 
+class _FormatToFString(ast.NodeTransformer):
+    """"call_{}".format(name) and "call_%s" % name are f"call_{name}": plain positional fields only (no specs, no
+    indices), as many arguments as fields"""
+
+    def visit_Call(self, node: ast.Call):
+        self.generic_visit(node)
+        f = node.func
+        if isinstance(f, ast.Attribute) and f.attr == "format" and isinstance(f.value, ast.Constant) and isinstance(f.value.value, str) and not node.keywords and not any(isinstance(a, ast.Starred) for a in node.args):
+            txt = f.value.value
+            parts = txt.split("{}")
+            if len(parts) == len(node.args) + 1 and not any("{" in p_ or "}" in p_ for p_ in parts):
+                vals: list = []
+                for i, p_ in enumerate(parts):
+                    if p_:
+                        vals.append(ast.Constant(value=p_))
+                    if i < len(node.args):
+                        vals.append(ast.FormattedValue(value=node.args[i], conversion=-1, format_spec=None))
+                return ast.copy_location(ast.JoinedStr(values=vals), node)
+        return node
+
+    def visit_BinOp(self, node: ast.BinOp):
+        self.generic_visit(node)
+        if isinstance(node.op, ast.Mod) and isinstance(node.left, ast.Constant) and isinstance(node.left.value, str):
+            txt = node.left.value
+            args = list(node.right.elts) if isinstance(node.right, ast.Tuple) else [node.right]
+            parts = txt.split("%s")
+            if len(parts) == len(args) + 1 and not any("%" in p_ for p_ in parts) and not isinstance(node.right, (ast.Dict, ast.Name) if len(parts) != 2 else ast.Dict):
+                if len(parts) == 2 and not isinstance(node.right, (ast.Constant, ast.Attribute, ast.Call, ast.Subscript, ast.JoinedStr)):
+                    return node  # "%s" % x with x possibly a tuple: not the same as f"{x}"
+                vals: list = []
+                for i, p_ in enumerate(parts):
+                    if p_:
+                        vals.append(ast.Constant(value=p_))
+                    if i < len(args):
+                        vals.append(ast.FormattedValue(value=args[i], conversion=-1, format_spec=None))
+                return ast.copy_location(ast.JoinedStr(values=vals), node)
+        return node
+
+
 def _alias_methods(trees: Dict[str, ast.Module]) -> int:
     """class body `name = staticmethod(f)`, f a module-level function of the package with plain positional parameters:
     written out as the static method it is -  @staticmethod def name(a, b): return f(a, b)"""
@@ -968,6 +1012,10 @@ def _alias_methods(trees: Dict[str, ast.Module]) -> int:
 def canonicalise(trees: Dict[str, ast.Module]) -> Dict[str, str]:
     """rename renamed private anchors back (in the trees); returns {canonical name: name used in this tree}"""
     _alias_methods(trees)
+    for t in trees.values():
+        if any(isinstance(x, ast.Attribute) and x.attr == "format" and isinstance(x.value, ast.Constant) for x in ast.walk(t)) or any(isinstance(x, ast.BinOp) and isinstance(x.op, ast.Mod) and isinstance(x.left, ast.Constant) and isinstance(x.left.value, str) for x in ast.walk(t)):
+            _FormatToFString().visit(t)
+            ast.fix_missing_locations(t)
     for t in trees.values():
         _Deannotate().visit(t)
     for t in trees.values():
